@@ -11,8 +11,11 @@ that all analyses read one core language:
   if (n := f(x)) > 3: ...            n = f(x)
                                      if n > 3: ...
 
-A `match` with patterns outside this subset (captures, sequences, mappings,
-class patterns with arguments) is left as it is: the analyses then stop with
+Also read: capture patterns (`case x if g(x)`), class patterns with keyword
+sub-patterns, and sequence patterns over a tuple display subject
+(`match a, b: case 0, _:`), element by element.  A `match` with patterns
+outside this subset (star patterns, mappings, positional class patterns,
+sequences over a non-display subject) is left as it is: the analyses then stop with
 ANALYSIS-ERROR at that statement instead of guessing.  Line numbers are kept.
 Only the analysers read the result; nothing is executed."""
 import ast
@@ -26,11 +29,15 @@ def _pure_subject(e):
     return True
 
 
+def _copy(e):
+    return ast.parse(ast.unparse(e), mode="eval").body
+
+
 class _Counter:
     n = 0
 
 
-def _pattern_test(subject, pat):
+def _pattern_test(subject, pat, binds=None):
     """ast test for `subject` matching `pat`, or None if unsupported;
     True for an irrefutable pattern."""
     if isinstance(pat, ast.MatchValue):
@@ -41,7 +48,7 @@ def _pattern_test(subject, pat):
             pat.name is None:
         return True
     if isinstance(pat, ast.MatchOr):
-        alts = [_pattern_test(subject, p) for p in pat.patterns]
+        alts = [_pattern_test(subject, p) for p in pat.patterns]   # no binds
         if any(a is None for a in alts):
             return None
         if any(a is True for a in alts):
@@ -54,6 +61,39 @@ def _pattern_test(subject, pat):
             not pat.kwd_patterns:
         return ast.Call(ast.Name("isinstance", ast.Load()),
                         [subject, pat.cls], [])
+    if isinstance(pat, ast.MatchClass) and not pat.patterns and \
+            _pure_subject(subject):
+        # C(attr=pattern, ...): isinstance and the attribute tests
+        tests = [ast.Call(ast.Name("isinstance", ast.Load()),
+                          [subject, pat.cls], [])]
+        for a, sp in zip(pat.kwd_attrs, pat.kwd_patterns):
+            t = _pattern_test(ast.Attribute(subject, a, ast.Load()), sp,
+                              binds)
+            if t is None:
+                return None
+            if t is not True:
+                tests.append(t)
+        return tests[0] if len(tests) == 1 else ast.BoolOp(ast.And(), tests)
+    if isinstance(pat, ast.MatchAs) and pat.pattern is None and \
+            pat.name is not None and binds is not None and \
+            _pure_subject(subject):
+        binds.append((pat.name, subject))
+        return True
+    if isinstance(pat, ast.MatchSequence) and isinstance(
+            subject, ast.Tuple) and len(pat.patterns) == len(
+                subject.elts) and not any(
+                    isinstance(x, ast.MatchStar) for x in pat.patterns):
+        # a tuple display matched element by element (no tuple is built)
+        tests = []
+        for e, sp in zip(subject.elts, pat.patterns):
+            t = _pattern_test(e, sp, binds)
+            if t is None:
+                return None
+            if t is not True:
+                tests.append(t)
+        if not tests:
+            return True
+        return tests[0] if len(tests) == 1 else ast.BoolOp(ast.And(), tests)
     return None
 
 
@@ -85,7 +125,19 @@ class Desugar(ast.NodeTransformer):
         self.generic_visit(node)
         subject = node.subject
         pre = []
-        if not _pure_subject(subject):
+        if isinstance(subject, ast.Tuple) and not _pure_subject(subject):
+            elts = []
+            for e in subject.elts:
+                if _pure_subject(e):
+                    elts.append(e)
+                    continue
+                _Counter.n += 1
+                tmp = "__match_%d" % _Counter.n
+                pre.append(ast.copy_location(ast.Assign(
+                    [ast.Name(tmp, ast.Store())], e), node))
+                elts.append(ast.Name(tmp, ast.Load()))
+            subject = ast.Tuple(elts, ast.Load())
+        elif not _pure_subject(subject):
             _Counter.n += 1
             tmp = "__match_%d" % _Counter.n
             pre.append(ast.copy_location(ast.Assign(
@@ -114,9 +166,19 @@ class Desugar(ast.NodeTransformer):
                     t = Sub().visit(c.guard)
                 tests.append(t)
                 continue
-            t = _pattern_test(subject, pat)
+            binds = []
+            t = _pattern_test(subject, pat, binds)
             if t is None:
                 return node          # unsupported pattern: leave the match
+            if binds:
+                if c.guard is not None and any(
+                        isinstance(n, ast.Name) and n.id in {
+                            b[0] for b in binds}
+                        for n in ast.walk(c.guard)):
+                    return node      # guard on a nested capture: not read
+                c.body = [ast.copy_location(ast.Assign(
+                    [ast.Name(nm, ast.Store())], _copy(ex)), pat)
+                    for nm, ex in binds] + list(c.body)
             if c.guard is not None:
                 t = c.guard if t is True else ast.BoolOp(ast.And(),
                                                          [t, c.guard])
